@@ -543,6 +543,9 @@ func (c *Check) scopeProvenance() {
 	}
 	c.noRequestMemo()
 	c.leaseClosedRouting("R4")
+	// "valid" on chain means never revoked: a genesis export / import cycle must not turn revoked certificates valid
+	// (shared with C17-R3)
+	c.certGenesisRoundTrip("R2")
 }
 
 // noRequestMemo (R5): every request is answered from the chain / cluster as it is now, for the caller it came from.
